@@ -36,3 +36,60 @@ PROPS['C07'] = dict(
     assumptions=COMMON_ASSUME + ['extraction through the public read API is faithful (cross-checked by C04)',
                                  'doubles that are exactly floats are printed with float accuracy by design (DESIGN.md don\'t-care 13)'],
 )
+
+
+# ---------------------------------------------------------------- C01
+def c01_jobs(tier):
+    return [
+        Job('default', 'c01', 'gen', q(tier, 80000, 4000000)),
+        Job('debug-small', 'c01', 'gen', q(tier, 30000, 1000000), defines={'ARDUINOJSON_SLOT_ID_SIZE': 2, 'ARDUINOJSON_STRING_LENGTH_SIZE': 1, 'ARDUINOJSON_DEBUG': 1, 'ARDUINOJSON_POOL_CAPACITY': 8}),
+        Job('float', 'c01', 'gen', q(tier, 30000, 1000000), defines={'ARDUINOJSON_USE_DOUBLE': 0, 'ARDUINOJSON_SLOT_ID_SIZE': 4, 'ARDUINOJSON_STRING_LENGTH_SIZE': 4}),
+    ]
+
+
+PROPS['C01'] = dict(
+    level='exploration',
+    rule='constructive: a value is drawn (boundary integers, floats respelled as random RFC 8259 literals <= 63 chars, strings over valid UTF-8 incl. NUL and '
+         'controls, keys from a small pool incl. empty/NUL/prefix/duplicate keys, chains up to depth 40), rendered with random RFC whitespace '
+         '(also after a top-level scalar), random escape spelling (\\\\uXXXX any case, surrogate pairs, \\\\/), parsed into one of 8 destination states '
+         '(fresh, dirty, shrunk, member proxy with sibling, element beyond end, JsonVariant) with the nesting limit at or above the depth; '
+         'non-trivial = container, escape, float or repeated key; distinct = distinct text',
+    jobs=c01_jobs,
+    min_evaluations=dict(quick=100000, thorough=3000000),
+    technique='constructive differential monitoring: reference renderer (value -> random RFC 8259 spelling) feeding deserializeJson under ASan+UBSan, result extracted through the public API and compared with the value the text was built from',
+    level_text='Exploration: the denotation of every text is known by construction (no parser in the oracle); held on the texts and destination states observed.',
+    level_note='Trusts the reference renderer (self-tested against CPython json in --setup) and glibc strtold for the value of float literals; tolerance per C12.',
+    assumptions=COMMON_ASSUME + ['texts are at most a few kB; DECODE_UNICODE=1'],
+    must_observe={'repeated keys': lambda agg, d: agg['counters'].get('texts_with_repeated_keys', 0) > 0},
+)
+
+
+# ---------------------------------------------------------------- C12
+def c12_jobs(tier):
+    return [
+        Job('deser', 'c12', 'deser', q(tier, 600000, 40000000)),
+        Job('str', 'c12', 'str', q(tier, 300000, 20000000)),
+        Job('print-int', 'c12', 'print-int', q(tier, 8000, 400000)),
+        Job('print-f32', 'c12', 'print-f32', q(tier, 6000, 0), flavour='asan2', timeout=q(tier, 900, 7200)),
+        Job('print-f64', 'c12', 'print-f64', q(tier, 20000, 2000000), flavour='asan2'),
+        Job('deser-float', 'c12', 'deser', q(tier, 100000, 5000000), defines={'ARDUINOJSON_USE_DOUBLE': 0}),
+        Job('print-float-cfg', 'c12', 'print-f64', q(tier, 5000, 200000), defines={'ARDUINOJSON_USE_DOUBLE': 0}),
+    ]
+
+
+PROPS['C12'] = dict(
+    level='exploration',
+    rule='literal generator over the whole number grammar (sign, 0-40 leading zeros, up to 5000 integer/fraction digits, exponents -5000..5000 with '
+         'compensating shifts, boundary integers around 2^7..2^64 and powers of ten) through deserializeJson (<= 63 chars) and through as<T>() on linked '
+         'and copied string values of any length; printing: boundary-weighted integers, float bit patterns in blocks of 4096 scattered over the whole '
+         '32-bit space (all 2^20 blocks in thorough = every float), doubles over every exponent; distinct = distinct literal / value / block',
+    jobs=c12_jobs,
+    exhaustive=lambda tier: False,
+    min_evaluations=dict(quick=500000, thorough=20000000),
+    technique='reference-oracle monitoring: generated literals and values run through the real parser/printer under ASan+UBSan and judged against glibc strtold (80-bit) and __int128 arithmetic with the tolerances of the statement',
+    level_text='Exploration with a computed oracle: each literal is judged against its correctly rounded value and the stated tolerance; float printing is exhaustive over all 2^32 floats in the thorough tier, sampled in quick.',
+    level_note='Trusts glibc strtold as correctly rounded reference (its own error, 5e-20 relative, is negligible against 1e-13) and the number grammar as implemented in the generator.',
+    assumptions=COMMON_ASSUME + ['doubles exactly representable as float are printed with float accuracy by design (don\'t-care 13)',
+                                 'USE_DOUBLE=0 jobs use 1e-5 instead of 1e-6/1e-13 (don\'t-care 14)'],
+    extra_coverage={'floats_printed': lambda agg, d: agg['counters'].get('floats_printed', 0)},
+)
